@@ -95,6 +95,15 @@ def _run_one(args):
 
                 ref = ref_table().get(v.module, {}).get(v.function)
                 mod = prog.module(v.module)
+                if not v.function:
+                    import ast as _ast
+                    import hashlib as _hl
+
+                    from .normalise import pre_normalise
+
+                    raw = pre_normalise(_ast.parse(mod.source), v.module, use_ref=False)
+                    if _hl.sha1(_ast.dump(raw, include_attributes=False).encode()).hexdigest()[:16] == ref_table().get(v.module, {}).get("__module_hash__"):
+                        return (v.name, kind, "STALE", "anchor text not present although the module is unchanged: the variant must be rewritten")
                 if ref and v.function and mod.has_func(v.function) and alpha_hash(mod.func(v.function))[0] == ref["hash"]:
                     return (v.name, kind, "STALE", "anchor text not present although the function is unchanged: the variant must be rewritten")
             except Exception:  # noqa: BLE001
